@@ -115,6 +115,17 @@ Lemma dostar_inits_like_letstar : forall m ev st sc x e s bs,
     ev_inits_seq m ev (snd (alloc st1 [(x, a)])) ((List.length (frames st1), 1) :: sc) bs)).
 Proof. reflexivity. Qed.
 
+(* repaired (repo_fixes/C01-18): dolist and dotimes take the primary value of their list / count form.
+   (dotimes (i (values 2 9) i)) => 2 ; (let ((r 0)) (dolist (x (values '(1 2) 3) r) (setq r (+ r x)))) => 3, every mode *)
+Definition w_dotimes_values := [EDotimes "i" (EValues [I 2; I 9]) (Some (EVar "i")) []].
+Definition w_dolist_values :=
+  [ELet [("r", I 0)] [EDolist "x" (EValues [EQuote (DList [DInt 1; DInt 2]); I 3]) (Some (EVar "r"))
+                        [ESetq [("r", EPrim PAdd [EVar "r"; EVar "x"])]]]].
+Example loop_form_primary_value :
+  forallb (fun m => match fst (run m 60 w_dotimes_values), fst (run m 60 w_dolist_values) with
+                    | Ok (VInt 2), Ok (VInt 3) => true | _, _ => false end) [Slip; Ref; Chk] = true.
+Proof. vm_compute; reflexivity. Qed.
+
 (* ------------------------------------------------------------------------------------------ non-vacuity *)
 (* the guard is satisfiable by programs that use closures, assignment through closures, shadowing, loops, recursion
    and multiple values in the places where Go and the language agree:
